@@ -11,10 +11,10 @@ import StepModel.ExpSchemaSynLemmas
 Layout layer: for EVERY line length, indent and position `wrap`/`raw` only drop leading blanks of a fragment and insert a
 newline + indent in front of it (`C07_wrap_decomp`, `C07_layout_nonspace`), `breakLongStr` partitions the string
 (`C07_splitDots_flatten`, `C07_breakLongStr_chars_partial`).
-Structure layer: parentheses are omitted only inside chains of one operator that is associative in EXPRESS and declared
-`%left` (`C07_omit_only_associative`, `C07_omit_left_assoc` — regenerated tables), the normal form the parser reads back is
-equivalent to the expression up to those re-associations (`C07_norm_equiv`), printing the normal form gives the same tokens
-(`C07_stable`), literals survive (`C07_string_roundtrip`, `C07_real_keeps_point`, `C07_binary_literal`), unlabelled rules have
+Structure layer: parentheses are omitted only for a LEFT operand with its parent's operator, where the `%left` parser builds the
+same tree back (`C07_omit_only_left_nested`, `C07_omit_left_assoc` — regenerated); no associativity of an EXPRESS operator is
+assumed; what the parser reads back is the expression itself (`C07_norm_id`, `C07_parse_print`), literals survive
+(`C07_string_roundtrip`, `C07_real_keeps_point`, `C07_binary_literal`), unlabelled rules have
 no label token (`C07_unlabelled_where`), repetition flags stay off shared literals (`C07_no_shared_repeat`).
 -/
 namespace StepModel.Express
